@@ -121,6 +121,14 @@ def generate(prop, rng, tier):
         spec = C.gen_leaf(rng, allow_slow=rng.random() < 0.15, allow_reduce=True)
         if spec["kind"] == "reduce" and spec["strategy"] != "recursive":
             spec = dict(spec, strategy="recursive", regressor="stub")  # fh is per fold
+        if rng.random() < 0.15:
+            # a composite as the forecaster under evaluation
+            a_ = {"kind": "naive", "strategy": rng.choice(["last", "mean"]), "sp": 1, "window_length": None}
+            b_ = {"kind": "trend", "degree": 1, "with_intercept": True}
+            spec = rng.choice([
+                {"kind": "ensemble", "members": [a_, b_], "aggfunc": rng.choice(["mean", "median"]), "n_jobs": None},
+                {"kind": "ttf", "transformers": [{"kind": "detrend", "forecaster": None}], "forecaster": a_},
+                {"kind": "mux", "members": [a_, b_], "selected": rng.randrange(2)}])
         with_X = rng.random() < 0.25 and spec["kind"] in ("naive", "reduce")
         if rng.random() < 0.12:
             spec = {"kind": "xinc"}   # a peer that uses exogenous data at predict time
